@@ -8,6 +8,7 @@ import (
 	"sync"
 	"time"
 
+	"github.com/google/uuid"
 	"github.com/rs/zerolog"
 	"github.com/rs/zerolog/log"
 	"github.com/semafind/semadb/models"
@@ -210,6 +211,12 @@ func (sm *ShardManager) DeleteCollectionShards(collection models.Collection) ([]
 	deletedShardIds := make([]string, 0, len(shardDirs))
 	for _, shardDirEntry := range shardDirs {
 		if !shardDirEntry.IsDir() {
+			continue
+		}
+		// Shard directories carry a shard id. A user id may continue below a
+		// slash, so any other directory here is the collection directory of
+		// the user "<userId>/<collectionId>" and its shards are not ours.
+		if _, err := uuid.Parse(shardDirEntry.Name()); err != nil {
 			continue
 		}
 		shardDir := filepath.Join(collectionDir, shardDirEntry.Name())
